@@ -10,6 +10,7 @@ Real code: Sourcefile.from_source / Subroutine.from_source (frontend=FP) -> sani
            reinsert_convert_endian / reinsert_open_newunit; fgen of the result.
 """
 import json
+import re
 
 from ..core import MachineryError
 from .. import lib_flex as X
@@ -19,7 +20,10 @@ from .. import lib_flex as X
 # behave alike)
 RULE = {'__FILE__': 'STRING_PP_DIRECTIVES', '__FILENAME__': 'STRING_PP_DIRECTIVES', '__DATE__': 'STRING_PP_DIRECTIVES',
         '__VERSION__': 'STRING_PP_DIRECTIVES', '__LINE__': 'INTEGER_PP_DIRECTIVES', '@PROCESS': 'IBM_DIRECTIVES',
-        'CONVERT': 'CONVERT_ENDIAN', 'NEWUNIT': 'OPEN_NEWUNIT'}
+        'CONVERT': 'CONVERT_ENDIAN', 'NEWUNIT': 'OPEN_NEWUNIT',
+        # whole-statement look-alikes (text reading like a complete OPEN statement) of the two OPEN rules
+        'OPENCONV': 'CONVERT_ENDIAN', 'OPENCONVLC': 'CONVERT_ENDIAN', 'OPENNEWU': 'OPEN_NEWUNIT',
+        'OPENNEWUMC': 'OPEN_NEWUNIT'}
 
 
 def render(src):
@@ -32,6 +36,8 @@ def render(src):
                 s += "'" + t + "'"
             elif k == 'dq':
                 s += '"' + t + '"'
+            elif k == 'sqc':
+                s += "'" + t[:5] + '&\n     &' + t[5:] + "'"
             elif k == 'cont':
                 s += '&\n     & '
             else:
@@ -117,7 +123,9 @@ def observe(text, path):
         elif isinstance(n, (ir.Assignment, ir.CallStatement, ir.VariableDeclaration)):
             for lit in FindLiterals(unique=False).visit(n):
                 if isinstance(lit, sym.StringLiteral):
-                    obs['strings_ir'].append(lit.value)
+                    # Loki keeps a literal that is continued over several lines raw (`&`, newline, `&` included,
+                    # independent of any trigger); its value is the joined text
+                    obs['strings_ir'].append(re.sub(r'&[ \t]*\n[ \t]*&', '', lit.value))
         c = getattr(n, 'comment', None)
         if c is not None and getattr(c, 'text', None):
             seen_comments.add(id(c))
@@ -216,7 +224,7 @@ def run(ctx):
             key = f"rule={RULE[g['t']]}:region={g['place']}:clause={clause}"
             ctx.violation(key, f"{path}: placement {g['t']} in {g['place']} at {g['pos']} violates clause {clause}"
                                + (f' ({err})' if err else '') + f"; source line(s): "
-                               f"{[l for l in text.splitlines() if g['t'].split('=')[0].lower() in l.lower()][:2]}; regenerated: "
+                               f"{[l for l in text.splitlines() if (g['t'].split('=')[0].lower() if not g['t'].startswith('OPEN') else 'open') in l.lower()][:3]}; regenerated: "
                                f"{[l for l in out_text.splitlines() if any(w in l.lower() for w in ('head', 'tail', 'open', '__'))][:3]}",
                           {'t': g['t'], 'place': g['place'], 'pos': g['pos'], 'src': g['src'], 'path': path, 'text': text})
     ctx.cover['violation_keys'] = sorted({v.key for v in ctx.violations})
@@ -229,7 +237,7 @@ def run(ctx):
         ctx.sample({'placement': [meta[100][0]['t'], meta[100][0]['place'], meta[100][0]['pos']], 'text': meta[100][2],
                     'regenerated': meta[100][3]})
     ctx.assumptions += [
-        'universe: 8 triggers x 13 placements (sq/dq string, string in PRINT / call argument, full-line and inline '
+        'universe: 12 triggers (incl. whole-statement OPEN look-alikes) x 16 placements (sq/dq string, string in PRINT / call argument, full-line and inline '
         'comment, cpp directive, identifier infix, string / comment / continuation in OPEN, targeted code position, '
         'targeted OPEN specifier) x 3 positions, legal combinations only; entry points Sourcefile.from_source and '
         'Subroutine.from_source (thorough: also REGEX -> make_complete(FP))',
